@@ -293,6 +293,20 @@ def check_case(case, rec):
             if step == "run":
                 prog.run()
                 want = set(range(len(nodes)))
+            elif step[0] == "rebind":
+                # a command that has not run yet is pointed at another input (its Argument is given a new value): from then
+                # on it is that result the command is fed
+                i = step[1] % n
+                if i in executed or nodes[i].get("A") is None or i == 0 or case.get("drop_program") or nodes[i].get("typed"):
+                    continue
+                j = step[2] % i
+                if nodes[j].get("num"):
+                    continue
+                arg = [a for a in commands[name(i)].arguments if a.name == "A"][0]
+                arg.value = commands[name(j)] if case.get("build") == "api_objects" else name(j)
+                nodes[i] = dict(nodes[i], A=j)
+                want = set(executed)
+                rec.label("argument_rebound")
             elif step[0] == "grow_late":
                 # a model assembled consumer first: the consumer is looked at while the command it refers to does not
                 # exist yet (that read is refused), then the missing command is added and work goes on
@@ -400,6 +414,7 @@ def small_dags(ctx):
     scripts = [["run", "run", ["read", 0]], [["read_twice", 99], "run", ["read", 1], "run"]]
     grow = ["run", ["extend", [{"A": 0}, {"L": [1, 0], "N": [[2]]}]], "run", ["read", 1], "run"]
     late = [["grow_late", 0], "run", ["read", 99], ["grow_late", 1], ["read_twice", 98], "run"]
+    rebound = [["rebind", 2, 0], ["rebind", 1, 0], ["read", 1], ["rebind", 2, 1], "run", "run"]
     for n in range(1, top + 1):
         ref_choices = []
         for j in range(n):
@@ -432,6 +447,8 @@ def small_dags(ctx):
                         yield {"nodes": vnodes, "order": list(range(n)), "build": "api", "steps": grow}
                         yield {"nodes": vnodes, "order": list(range(n)), "build": "source", "steps": grow[1:]}
                         yield {"nodes": vnodes, "order": list(range(n)), "build": "api" if n % 2 else "source", "steps": late}
+                        if n >= 2:
+                            yield {"nodes": vnodes, "order": list(range(n))[::-1], "build": ["source", "api", "api_objects"][n % 3], "steps": rebound}
                         yield {"nodes": vnodes, "order": list(range(n)), "build": "api_objects", "steps": scripts[1]}
                         yield {"nodes": vnodes, "order": list(range(n)), "build": "api_shared_lists", "steps": scripts[0]}
 
@@ -511,6 +528,10 @@ def dag_cases(draw):
     if draw(st.integers(0, 3)) == 0:
         for _ in range(draw(st.integers(1, 2))):
             steps.insert(draw(st.integers(0, len(steps))), ["grow_late", draw(st.integers(0, 40))])
+        steps.append("run")
+    if draw(st.integers(0, 3)) == 0:
+        for _ in range(draw(st.integers(1, 3))):
+            steps.insert(draw(st.integers(0, max(0, len(steps) - 1))), ["rebind", draw(st.integers(0, 40)), draw(st.integers(0, 40))])
         steps.append("run")
     builds = ["source", "api", "api_objects"] + ([] if typed else ["api_shared_lists"])
     case = {"nodes": nodes, "order": order, "build": draw(st.sampled_from(builds)), "steps": steps}
